@@ -7,58 +7,75 @@
    The full statement is
        C19_statement cfg :=
          forall s rs, usable (gp s) = true -> restored s (exec_runs cfg s rs) = true
-   (all interpreter states s whose decorator is usable, all sequences rs of runs = option
-   sets x program behaviours; restored = argv contents, path contents, decorator usable
-   and as found / undecided, no profiler enabled, no timer thread left).
+   - all interpreter states s whose decorator is usable (including states in which the
+     caller rebound sys.argv / sys.path after importing kernprof), all sequences rs of runs
+     = option sets x program behaviours (return, sys.exit, KeyboardInterrupt, exception;
+     editing sys.path / sys.argv in place; picking up a stale builtins.profile);
+   - restored = sys.argv contents, sys.path contents, decorator usable and as found (or
+     undecided), no profiler enabled, no timer thread left.
 
-   [current] (Cli/MainEffects.v) is the behaviour of the tree as it is.  C19_statement
-   current is FALSE in four independent ways (the *_refuted theorems, each with the
-   exact wrong state); C19_restores_partial says what does hold; C19_restores_if_fixed
-   says that the four small repairs make the full statement true.
-
-   WHEN /repo IS REPAIRED: flip the corresponding booleans of [current] in
-   Cli/MainEffects.v (one line); the *_refuted lemmas of the repaired clauses (PART B below,
-   Cli/MainEffectsRefuted.v) then stop compiling - delete them; when all four are repaired
-   delete PART B and the import of Cli.MainEffectsRefuted altogether and enable the theorem
-   in the comment at the end of this file.  harness/props/c19.py reads the list of
-   obligations from this file, nothing else has to change. *)
+   [current] (Cli/MainEffects.v) is the behaviour of the tree as it is now, i.e. after the
+   repairs 204c2e5, d567ae1, f436ae3, 2d3e878; [unrepaired] is the tree before them.
+   The full statement holds of [current] (C19_restores) - nothing is left for a _partial
+   theorem - and each repair is shown to be necessary (C19_*_needs_*: a main lacking it
+   violates its clause, with the exact wrong state).  builtins.profile staying behind is
+   not part of the statement; it is modelled and compared: a stale one can make a later
+   plain-cProfile run raise ([effective_outcome]), which the five clauses survive. *)
 From LP Require Import Prelude.Py Explicit.Base Gen.GlobalProfiler Cli.MainEffects Cli.MainEffectsProofs.
-From LP Require Import Cli.MainEffectsRefuted.
 
-(* ======================= PART A: holds whatever [current] is ============================= *)
+(* After any sequence of in-process runs - whatever the options, however each program ends,
+   whether main returns or raises - argv, path, decorator, trace slot and threads are as found. *)
+Theorem C19_restores : C19_statement current.
+Proof. exact restores_current. Qed.
 
+(* the same, spelled out for one call of main *)
+Theorem C19_restores_each_run :
+  forall s o p, usable (gp s) = true -> restored s (snd (main current o p s)) = true.
+Proof. exact restores_current_run. Qed.
 
-(* What does hold of the tree as it is, for all states and all sequences of runs:
-   - no profiler is left enabled;
-   - sys.path has its previous contents provided sys.path is still the list object kernprof
-     saw when it was imported and no run ended with main raising ([no_exception]: along the
-     execution, because a stale builtins.profile left by an earlier run can make a later
-     plain-cProfile run raise although its program would not);
-   - no timer thread is left provided no run used -i N with N > 0.
-   (Nothing holds for sys.argv or for the global decorator: see above.) *)
-Theorem C19_restores_partial :
-  forall s rs,
-    tracing_ok s (exec_runs current s rs) = true
-    /\ (ref (path s) = cap (path s) -> no_exception current s rs = true -> path_ok s (exec_runs current s rs) = true)
-    /\ (no_interval rs = true -> timers_ok s (exec_runs current s rs) = true).
-Proof. exact (restores_partial current). Qed.
-
-(* The four repairs (decorators that look the list up at call time, put the name back and
-   write back in a finally; main restoring the decorator's state; one timer) make the full
-   statement true - for all states, option sets, outcomes and sequences of runs. *)
+(* any main with these four behaviours satisfies C19 (what C19_restores instantiates) *)
 Theorem C19_restores_if_fixed :
   forall cfg, fx_at_call cfg = true -> fx_finally cfg = true -> fx_profile cfg = true -> fx_timer cfg = true ->
               C19_statement cfg.
 Proof. exact restores_if_fixed. Qed.
 
-(* the smaller repair of sys.argv (`sys.argv[:] = ...`) suffices when nobody rebound
-   sys.argv / sys.path between kernprof's import and the call *)
-Theorem C19_restores_if_fixed_inplace :
-  forall cfg s rs,
-    fx_argv_inplace cfg = true -> fx_finally cfg = true -> fx_profile cfg = true -> fx_timer cfg = true ->
-    ref (argv s) = cap (argv s) -> ref (path s) = cap (path s) -> usable (gp s) = true ->
-    restored s (exec_runs cfg s rs) = true.
-Proof. exact restores_if_fixed_inplace. Qed.
+(* ---- each repair is necessary ---------------------------------------------------------------- *)
+(* a main that rebinds sys.argv under decorators that captured the list at import leaves
+   sys.argv = [script] + args after a run that RETURNS *)
+Theorem C19_argv_needs_call_time_lookup :
+  forall cfg, fx_at_call cfg = false -> fx_argv_inplace cfg = false ->
+  exists s o p, usable (gp s) = true /\ fst (main cfg o p s) = Returned
+                /\ argv_ok s (snd (main cfg o p s)) = false
+                /\ cur (argv (snd (main cfg o p s))) = o_new_argv o.
+Proof. exact argv_needs_repair. Qed.
+
+(* without the `finally`, a raising program leaves the inserted script directory in sys.path *)
+Theorem C19_path_needs_finally :
+  forall cfg, fx_finally cfg = false ->
+  exists s o p, usable (gp s) = true /\ ref (path s) = cap (path s) /\ p_outcome p = Exc
+                /\ fst (main cfg o p s) = Raised
+                /\ path_ok s (snd (main cfg o p s)) = false
+                /\ cur (path (snd (main cfg o p s))) = o_script_dir o :: cur (path s).
+Proof. exact path_needs_finally. Qed.
+
+(* with install_profiler(None) instead of handing the state back, the next @profile raises *)
+Theorem C19_profile_needs_state_handback :
+  forall cfg, fx_profile cfg = false ->
+  exists s o p, usable (gp s) = true /\ undecided (gp s) = true
+                /\ profile_ok s (snd (main cfg o p s)) = false
+                /\ decorate (gp (snd (main cfg o p s))) (fun _ => None) [] (Fn 0) = Err TypeError.
+Proof. exact profile_needs_repair. Qed.
+
+(* with the timer created twice, -i N leaks one *)
+Theorem C19_timer_needs_single_creation :
+  forall cfg, fx_timer cfg = false ->
+  exists s o p, usable (gp s) = true /\ 0 < o_interval o
+                /\ timers_ok s (snd (main cfg o p s)) = false
+                /\ timers (snd (main cfg o p s)) = timers s + 1.
+Proof. exact timer_needs_repair. Qed.
+
+Theorem C19_unrepaired_refuted : ~ C19_statement unrepaired.
+Proof. exact unrepaired_refuted. Qed.
 
 (* profile(f) raises iff the object is "enabled" without a profiler, in every world *)
 Theorem C19_usable_meaning :
@@ -66,70 +83,12 @@ Theorem C19_usable_meaning :
 Proof. exact decorate_raises_iff. Qed.
 
 Theorem C19_nonvacuous :
-  usable (gp st0) = true /\ ref (path st0) = cap (path st0)
-  /\ no_exception current st0 [(opts0, returns); (opts_module, mkProg SysExit true true true)] = true
-  /\ path_ok st0 (exec_runs current st0 [(opts0, returns); (opts_module, mkProg SysExit true true true)]) = true
-  /\ no_interval [(opts0, raises)] = true
-  /\ restored st0 (exec_runs all_fixed st0 [(opts0, returns); (opts0, raises); (opts_timed, returns);
-                                            (opts_module, mkProg Exc true true true)]) = true
+  usable (gp st0) = true
+  /\ restored st0 (exec_runs current st0 [(opts0, returns); (opts0, raises); (opts_timed, returns);
+                                           (opts_module, mkProg Exc true true true)]) = true
+  /\ restored st0 (exec_runs unrepaired st0 [(opts0, returns)]) = false
+  /\ fst (main current opts0 raises st0) = Raised
   /\ cur (path (snd (main_body current opts_module (mkProg Return true false true) st0)))
      = ["/T/setupd"; "/T"; "/lib"; "/prog-added"]
   /\ cur (argv (snd (main_body current opts_module (mkProg Return false true true) st0))) = ["mod"; "x"; "prog-added"].
 Proof. exact nonvacuous. Qed.
-
-(* ======================= PART B: the tree as it is violates C19 ========================== *)
-
-(* sys.argv is rebound by main; the decorator restores the list object it captured at
-   import, not the name: after a run that RETURNS, sys.argv is [script] + args. *)
-Theorem C19_argv_refuted :
-  exists s o p, usable (gp s) = true /\ fst (main current o p s) = Returned
-                /\ argv_ok s (snd (main current o p s)) = false
-                /\ cur (argv (snd (main current o p s))) = o_new_argv o.
-Proof. exact argv_refuted. Qed.
-
-(* the restoring decorator has no `finally`: when the program raises, sys.path keeps the
-   inserted script directory (although sys.path is still the very object kernprof captured) *)
-Theorem C19_path_on_exception_refuted :
-  exists s o p, usable (gp s) = true /\ ref (path s) = cap (path s) /\ p_outcome p = Exc
-                /\ fst (main current o p s) = Raised
-                /\ path_ok s (snd (main current o p s)) = false
-                /\ cur (path (snd (main current o p s))) = o_script_dir o :: cur (path s).
-Proof. exact path_on_exception_refuted. Qed.
-
-(* install_profiler(None) leaves the global decorator enabled=True, _profile=None:
-   the next @profile raises TypeError (translated __call__) *)
-Theorem C19_profile_unusable_refuted :
-  exists s o p, usable (gp s) = true /\ undecided (gp s) = true
-                /\ profile_ok s (snd (main current o p s)) = false
-                /\ f_enabled (gp (snd (main current o p s))) = Some true
-                /\ f_profile (gp (snd (main current o p s))) = None
-                /\ decorate (gp (snd (main current o p s))) (fun _ => None) [] (Fn 0) = Err TypeError.
-Proof. exact profile_unusable_refuted. Qed.
-
-(* -i N: two RepeatedTimers are started, one is stopped *)
-Theorem C19_timer_leak_refuted :
-  exists s o p, usable (gp s) = true /\ 0 < o_interval o
-                /\ timers_ok s (snd (main current o p s)) = false
-                /\ timers (snd (main current o p s)) = timers s + 1.
-Proof. exact timer_leak_refuted. Qed.
-
-Theorem C19_restores_refuted : ~ C19_statement current.
-Proof. exact statement_refuted. Qed.
-
-(* not accidents of the witnesses: in the tree as it is EVERY non-empty sequence of runs
-   leaves the decorator unusable, and EVERY run with -i N > 0 leaks one timer *)
-Theorem C19_every_run_breaks_profile :
-  forall s rs, fx_profile current = false -> rs <> [] -> usable (gp (exec_runs current s rs)) = false.
-Proof. exact every_run_breaks_profile. Qed.
-
-Theorem C19_every_timed_run_leaks :
-  forall s o p, fx_timer current = false -> 0 < o_interval o ->
-                timers (snd (main current o p s)) = timers s + 1.
-Proof. exact every_timed_run_leaks. Qed.
-
-(* AFTER THE REPAIR (all four flags of [current] true), replace the *_refuted,
-   C19_every_* theorems by:
-
-Theorem C19_restores : C19_statement current.
-Proof. exact (restores_if_fixed current eq_refl eq_refl eq_refl eq_refl). Qed.
-*)
